@@ -11,7 +11,7 @@ NON_NIX = ["", " ", "\n", "hello world", "<html>", "{ a = 1 }", "let", "a = 1;",
            # string-shaped texts that are not well-formed strings; whitespace Python strips and Nix rejects
            '"x\\"', '"\\"', '"a\\\\"b"', '"C:\\dir\\"', "\u00a0", "  \u2028\n", "\x1f", "\x85", "\u3000", "\n\x1c\n", "\ufeff",
            "\x0b", "\x0c"]
-WRAP = [("", ""), ("\n", ""), ("", "\n"), ("  ", "  \n\n"), ("\n\n# c\n", "\n")]
+WRAP = [("", ""), ("\n", ""), ("", "\n"), ("  ", "  \n\n"), ("\n\n# c\n", "\n"), ("\n", "\r\n"), ("\r\n", "\n"), ("# c\r\n", "")]
 
 
 def token_spans(text: str):
@@ -53,6 +53,10 @@ def stream(rng, quick: bool):
             yield {"template": name, "kind": kind}, pre + d + post
     for t in NON_NIX:
         yield {"template": "non-nix", "kind": "text"}, t
+    # erroneous sources with CRLF and mixed line endings
+    for t in ["{\r\n a = 1;\r\n b = 2;\r\n", "\n{\r\n a = 1;\r\n b = 2;\r\n", "{\r\n a = 1;\n b = ;\r\n}\r\n", "{ a = 1;\r b = ; }\n",
+              "# c\r\n{\n  a = 1\n}\n", "{\n  a = 1;\r\n\r\n  b = [ 1\n}\r\n"]:
+        yield {"template": "line-endings", "kind": "text"}, t
     if not quick:
         # two damages
         for name, t in TEMPLATES:
